@@ -317,7 +317,7 @@ def _build_partition(pi: int, part: dict, base: int) -> Tuple[bytes, PartitionLa
     for v in vols:
         bl = [file_body(f) for f in v.get("files", [])]
         bodies.append(bl)
-        need += sectors_needed(FILE_ENT * (len(bl) + len(v.get("ghosts", [])) + 1))
+        need += sectors_needed(FILE_ENT * (len(bl) + len(v.get("ghosts", [])) + len(v.get("after_end", [])) + 1))
         need += sum(sectors_needed(len(b)) for b in bl)
     # one guard sector per reserved-run directory so that a run is always
     # followed by a non-reserved sector
@@ -352,7 +352,7 @@ def _build_partition(pi: int, part: dict, base: int) -> Tuple[bytes, PartitionLa
         d = v.get("dir", {})
         if d.get("mode") == "run":
             rng = random.Random(d.get("seed", 0))
-            k = sectors_needed(FILE_ENT * (len(bodies[vi]) + len(v.get("ghosts", [])) + 1))
+            k = sectors_needed(FILE_ENT * (len(bodies[vi]) + len(v.get("ghosts", [])) + len(v.get("after_end", [])) + 1))
             # take k+1 consecutive, last is the guard (returned to the pool but
             # never used as a run start or a run member)
             saved = list(al.free)
@@ -386,7 +386,7 @@ def _build_partition(pi: int, part: dict, base: int) -> Tuple[bytes, PartitionLa
         if dir_chains[vi] is None:
             d = v.get("dir", {})
             rng = random.Random(d.get("seed", 0))
-            k = sectors_needed(FILE_ENT * (len(bodies[vi]) + len(v.get("ghosts", [])) + 1))
+            k = sectors_needed(FILE_ENT * (len(bodies[vi]) + len(v.get("ghosts", [])) + len(v.get("after_end", [])) + 1))
             ch = al.take(k, d.get("policy", "contiguous"), rng)
             link(ch)
             dir_chains[vi] = ch
@@ -437,6 +437,11 @@ def _build_partition(pi: int, part: dict, base: int) -> Tuple[bytes, PartitionLa
                                        [base + s * SECTOR for s in ch]))
         emit_ghosts(10 ** 9)
         table += b"\0" * 8 + struct.pack("<H", END_FLAG) + b"\0" * 14
+        for src, nm in v.get("after_end", []):
+            # behind the marker: a complete entry pointing at a live file's chain under another name - never to be listed
+            f0 = v["files"][src]
+            table += akname(nm) + b"\0" * 4 + bytes([f0["ftype"] & 0xFF]) + (len(bodies[vi][src]) & 0xFFFFFF).to_bytes(3, "little") \
+                + struct.pack("<H", file_chains[vi][src][0]) + b"\0\0"
         put(dch, bytes(table))
         pl.volumes.append(vl)
     # the 100-entry volume table: active volumes may sit in any increasing set of slots, with stale inactive entries between
